@@ -105,18 +105,23 @@ func (c *Ctx) runLoopAware(r *Report, rule string, inPkg func(string) bool) {
 		}
 		n++
 		cons := fn.id() + ":StmtLoop"
-		aware := false
+		// every recursive call of the StmtLoop arm (body AND continuing) passes the constant
+		aware := true
 		for _, lc := range loopCalls {
+			has := false
 			for _, a := range lc.Args {
 				if tv, ok := info.Types[a]; ok && tv.Value != nil {
-					aware = true
+					has = true
 				}
+			}
+			if !has {
+				aware = false
 			}
 		}
 		if aware {
 			r.ok(rule, cons, c.pos(loopCalls[0].Pos()), "")
 		} else {
-			r.viol(rule, cons, c.pos(loopCalls[0].Pos()), fn.id()+" applies a per-block transformation and recurses into loop bodies exactly as into any other nested block: the transformation cannot know that the block runs once per iteration")
+			r.viol(rule, cons, c.pos(loopCalls[0].Pos()), fn.id()+" applies a per-block transformation and recurses into a loop's body or continuing block exactly as into any other nested block: the transformation cannot know that the block runs once per iteration")
 		}
 	}
 	r.inst(rule, n)
